@@ -59,7 +59,7 @@ static std::string run_env(const Case &cs, const Env &e, const std::vector<int> 
     return judge(cs, o);
 }
 
-static void run_case(const Case &cs, const std::string &key, bool explore) {
+static void run_case(const Case &cs, const std::string &key, int explore) {   // explore: 0 none, 1 delay bound 1, 2 delay bound 2
     for (auto &e : ENVS) {
         std::string v = run_env(cs, e);
         vf::count("executions");
@@ -69,7 +69,7 @@ static void run_case(const Case &cs, const std::string &key, bool explore) {
     vf::S().states += 1;
     if (mm::stats().p2p_messages > 0) vf::nontrivial(vf::hstr(key));
     if (explore) {
-        // DFS over rank interleavings and completion modes, delay bounded: at most 1 (thorough: 2) departures
+        // DFS over rank interleavings and completion modes, delay bounded: at most `explore` (1; on a thin slice of the thorough tier 2) departures
         // from the default schedule (any non-default choice of the next rank or of a completion mode).
         // The operations are explored in five separate scenarios so that each bounded search completes.
         for (int ops : {1, 3, 4, 8, 16}) {
@@ -81,7 +81,7 @@ static void run_case(const Case &cs, const std::string &key, bool explore) {
                 std::string v = run_env(c2, e, &pf, true);
                 if (!v.empty() && bad.empty()) bad = v;
                 return vf::hstr(v);
-            }, vf::quick() ? 1 : 2, 60000, [&](const std::vector<int> &ch, uint64_t) { if (!bad.empty() && badc.empty()) badc = ch; }, true);
+            }, explore, 60000, [&](const std::vector<int> &ch, uint64_t) { if (!bad.empty() && badc.empty()) badc = ch; }, true);
             vf::S().states += st.states; vf::S().transitions += st.transitions + st.executions;
             vf::count("explored_scenarios"); vf::count("executions", st.executions);
             if (st.capped) { vf::count("explore_capped"); vf::cap("bounded DFS hit the per-scenario execution cap (60000) on some cases"); }
@@ -119,7 +119,9 @@ int main(int argc, char **argv) {
                     if (!vf::take_in_group([&]{ return key; })) continue;
                     cs.rp = rp; cs.cp = cp;
                     ++cidx;
-                    bool explore = (k >= 2 && k <= 3 && (cidx % (vf::quick() ? 97 : 61)) == 0) || vf::replaying();
+                    int explore = (k >= 2 && k <= 3 && (cidx % (vf::quick() ? 97 : 61)) == 0) ? 1 : 0;
+                    if (vf::thorough() && k >= 2 && k <= 3 && (cidx % 30011) == 0) explore = 2;
+                    if (vf::replaying()) explore = 2;
                     run_case(cs, key, explore);
                 }
             }
@@ -139,7 +141,7 @@ int main(int argc, char **argv) {
                     if (st) { cs.G.st(i, j) = 1; cs.G(i, j) = i == j ? 8 : ival(i, j, kind); }
                 }
                 cs.square_diag = true;
-                run_case(cs, key, k >= 2 && k <= 3 && n <= 6 && ((p.b[1] * 7 + p.b[k-1]) % (vf::quick() ? 13 : 3) == 0));
+                run_case(cs, key, (k >= 2 && k <= 3 && n <= 6 && ((p.b[1] * 7 + p.b[k-1]) % (vf::quick() ? 13 : 3) == 0)) ? 1 : 0);
             }
             vf::space(vf::KS() << "structured " << n << "x" << n << " kind " << kind << " (band/arrow/scattered nonsymmetric) x " << k << " ranks x all contiguous partitions");
         }
